@@ -2,7 +2,8 @@
 //! (idempotence gate), real `SharedPlan`, real `run_request_speculative_fiber` per execution, real
 //! `speculative_execution::execute`, real Default retry policy (behind a recording wrapper). Attempts are futures
 //! the explorer completes when it chooses. Events: complete(attempt, success | one of 4 failures), timer tick.
-//! Full enumeration of event orders for plan length p, max speculative count m, idempotent flag.
+//! The execution parameters are resolved by the production `new_for_session_apis` from a Statement + execution profile
+//! (hook `run_request_for_statement`). Full enumeration of event orders for plan length p, max speculative count m, idempotent flag.
 //!
 //! Oracle: a reference of the composition written in this file from the property text + h_drv::specmodel:
 //!  * non-idempotent: the speculative policy is ignored - one chain, never two attempts in flight, no new fiber;
@@ -17,7 +18,7 @@ use h_drv::specmodel::{Expected, Outcome, SpecModel};
 use scylla::errors::{RequestAttemptError, RequestError};
 use scylla::policies::speculative_execution::SimpleSpeculativeExecutionPolicy;
 use scylla::statement::Consistency;
-use scylla::verif::exec::{ExecConfig, ExecResult};
+use scylla::verif::exec::ExecResult;
 use serde_json::{Value, json};
 use std::cell::RefCell;
 use std::collections::{BTreeMap, BTreeSet};
@@ -41,6 +42,15 @@ const FAILS: [(&str, bool); 5] = [
     ("SyntaxError", false),
     // only offered in the DowngradingConsistency sweeps (there it is decided as "ignore the write error")
     ("WriteTimeout(SIMPLE,received=1)", true),
+];
+
+/// alternative failure set (non-database errors; 'no free stream id' and two kinds of broken connection are curable
+/// elsewhere = ignorable for the speculative loop)
+const FAILS_ALT: [(&str, bool); 4] = [
+    ("UnableToAllocStreamId", true),
+    ("BrokenConnection:WriteError(BrokenPipe)", true),
+    ("BrokenConnection", true),
+    ("SyntaxError", false),
 ];
 
 struct Att {
@@ -117,11 +127,16 @@ struct Params {
     pol: Policy,
     /// bit t set = plan target t hands out no connection
     mask: u32,
+    /// use FAILS_ALT instead of FAILS
+    alt: bool,
 }
 
 impl Params {
     fn n_fails(&self) -> usize {
-        if self.pol == Policy::Downgrading { 5 } else { 4 }
+        if self.pol == Policy::Downgrading && !self.alt { 5 } else { 4 }
+    }
+    fn table(&self) -> &'static [(&'static str, bool)] {
+        if self.alt { &FAILS_ALT } else { &FAILS }
     }
 }
 
@@ -132,16 +147,19 @@ fn one_execution(pr: Params, fails: &[Sym], ch: &mut Chooser) -> RunOut {
             let out = &mut out;
             let rec = Arc::new(RecordingPolicy::new(PolicySource::Real(retrysym::policy_of(pr.pol))));
             let listener = Arc::new(Listener::default());
-            let cfg = ExecConfig {
-                is_idempotent: pr.idem,
-                consistency: retrysym::cons_of(CL0),
-                retry_policy: rec.clone(),
-                speculative: Some(Arc::new(SimpleSpeculativeExecutionPolicy { max_retry_count: pr.m, retry_interval: INTERVAL })),
-                request_timeout: None,
-                history_listener: Some(listener.clone()),
-                targets: (0..pr.p).map(|t| pr.mask >> t & 1 == 0).collect(),
-                pool_errors: vec![],
-            };
+            // The parameters are resolved by the production `new_for_session_apis`, the way Session::query/execute do it:
+            // idempotence, consistency, retry policy and history listener sit on the statement, the speculative policy in
+            // the execution profile (the only place a user can put it).
+            let mut stmt = scylla::statement::unprepared::Statement::new("SELECT a FROM ks.t");
+            stmt.set_is_idempotent(pr.idem);
+            stmt.set_consistency(retrysym::cons_of(CL0));
+            stmt.set_retry_policy(Some(rec.clone()));
+            stmt.set_history_listener(listener.clone());
+            let profile = scylla::client::execution_profile::ExecutionProfile::builder()
+                .speculative_execution_policy(Some(Arc::new(SimpleSpeculativeExecutionPolicy { max_retry_count: pr.m, retry_interval: INTERVAL })))
+                .build()
+                .into_handle();
+            let targets: Vec<bool> = (0..pr.p).map(|t| pr.mask >> t & 1 == 0).collect();
             let atts: Rc<RefCell<Vec<Att>>> = Rc::new(RefCell::new(Vec::new()));
             let atts2 = atts.clone();
             let attempt = move |target: usize, cl: Consistency| {
@@ -151,7 +169,7 @@ fn one_execution(pr: Params, fails: &[Sym], ch: &mut Chooser) -> RunOut {
             };
             let log = Arc::new(Mutex::new(Vec::new()));
             let mut ex = vasync::Exec::new();
-            let (main, slot) = ex.spawn_with_output("run_request", scylla::verif::exec::run_request(cfg, log.clone(), attempt));
+            let (main, slot) = ex.spawn_with_output("run_request", scylla::verif::exec::run_request_for_statement(scylla::verif::exec::VerifStatement::Unprepared(stmt), profile, targets, vec![], log.clone(), attempt));
             // ---- reference state
             // effective speculative count: the policy is honoured only for idempotent requests
             let m_eff = if pr.idem { pr.m } else { 0 };
@@ -362,7 +380,7 @@ fn one_execution(pr: Params, fails: &[Sym], ch: &mut Chooser) -> RunOut {
                                 }
                             }
                             fibers[f].current = None;
-                            let end_class = if FAILS[s].1 { Outcome::Ignorable } else { Outcome::Definitive };
+                            let end_class = if pr.table()[s].1 { Outcome::Ignorable } else { Outcome::Definitive };
                             match d {
                                 Decision::RetrySame(_) => expect_new = Some((f, fibers[f].target, cl)),
                                 Decision::RetryNext(_) => match take_next(&mut next_target, &pr) {
@@ -411,7 +429,7 @@ fn one_execution(pr: Params, fails: &[Sym], ch: &mut Chooser) -> RunOut {
 }
 
 fn case_json(pr: Params, choices: &[usize]) -> Value {
-    json!({"leg":"exec-spec","policy":pr.pol.name(),"p":pr.p,"max_speculative":pr.m,"idempotent":pr.idem,"no_conn_mask":pr.mask,"choices":choices})
+    json!({"leg":"exec-spec","policy":pr.pol.name(),"p":pr.p,"max_speculative":pr.m,"idempotent":pr.idem,"no_conn_mask":pr.mask,"alt_failures":pr.alt,"choices":choices})
 }
 
 fn main() {
@@ -420,14 +438,18 @@ fn main() {
     if let Err(e) = h_drv::specmodel::self_test() {
         vcore::machinery_error(&format!("specmodel self-test failed: {e}"));
     }
-    let all = retrysym::alphabet();
-    let fails: Vec<Sym> = FAILS
-        .iter()
-        .map(|(n, _)| {
-            let s = all.iter().find(|s| s.name == *n).unwrap_or_else(|| vcore::machinery_error("failure symbol missing"));
-            Sym { name: s.name.clone(), class: s.class, err: s.err.clone() }
-        })
-        .collect();
+    let all = retrysym::extended_alphabet();
+    let pick = |table: &[(&str, bool)]| -> Vec<Sym> {
+        table
+            .iter()
+            .map(|(n, _)| {
+                let s = all.iter().find(|s| s.name == *n).unwrap_or_else(|| vcore::machinery_error("failure symbol missing"));
+                Sym { name: s.name.clone(), class: s.class, err: s.err.clone() }
+            })
+            .collect()
+    };
+    let fails_main = pick(&FAILS);
+    let fails_alt = pick(&FAILS_ALT);
     if let Some(case) = r.replay_case() {
         let pr = Params {
             p: case["p"].as_u64().unwrap_or(1) as usize,
@@ -435,10 +457,11 @@ fn main() {
             idem: case["idempotent"].as_bool().unwrap_or(false),
             pol: case["policy"].as_str().and_then(Policy::from_name).unwrap_or(Policy::Default),
             mask: case["no_conn_mask"].as_u64().unwrap_or(0) as u32,
+            alt: case["alt_failures"].as_bool().unwrap_or(false),
         };
         let choices: Vec<usize> = case["choices"].as_array().map(|a| a.iter().map(|v| v.as_u64().unwrap_or(0) as usize).collect()).unwrap_or_default();
         let mut ch = Chooser::new(choices);
-        let out = one_execution(pr, &fails, &mut ch);
+        let out = one_execution(pr, if pr.alt { &fails_alt } else { &fails_main }, &mut ch);
         if let Some(d) = &ch.diverged {
             vcore::machinery_error(&format!("the recorded schedule does not fit this build: {d}"));
         }
@@ -470,7 +493,11 @@ fn main() {
                     // every subset of connection-less targets for the Default policy on plans up to 3 targets
                     let masks: u32 = if pol == Policy::Default && p <= 3 { 1 << p } else { 1 };
                     for mask in 0..masks {
-                        sweeps.push(Params { p, m, idem, pol, mask });
+                        sweeps.push(Params { p, m, idem, pol, mask, alt: false });
+                        // the non-database failure set: Default policy, full plans only
+                        if pol == Policy::Default && mask == 0 && p >= 1 && p + m <= r.tier().pick(4, 5) {
+                            sweeps.push(Params { p, m, idem, pol, mask, alt: true });
+                        }
                     }
                 }
             }
@@ -487,7 +514,7 @@ fn main() {
         let nontrivial = AtomicU64::new(0);
         let divergence: Mutex<Option<String>> = Mutex::new(None);
         let opts = DfsOpts { bound: 0, jobs: r.args.jobs, max_executions: r.tier().pick(3_000_000, 60_000_000), wall: Duration::from_secs(if thorough { 1500 } else { 90 }), ..Default::default() };
-        let fails_ref = &fails[..];
+        let fails_ref = if pr.alt { &fails_alt[..] } else { &fails_main[..] };
         let res = explore(&opts, |ch| {
             let out = one_execution(pr, fails_ref, ch);
             let plen = ch.trace.iter().rposition(|p| p.chosen != 0).map(|i| i + 1).unwrap_or(0);
@@ -527,7 +554,7 @@ fn main() {
         r.transitions.fetch_add(transitions.load(Ordering::Relaxed), Ordering::Relaxed);
         r.traces_validated.fetch_add(audited.load(Ordering::Relaxed), Ordering::Relaxed);
         r.nontrivial(nontrivial.load(Ordering::Relaxed));
-        r.counters.add(&format!("executions_{}_{}_p{}_m{}{}", pr.pol.name(), if pr.idem { "idem" } else { "nonidem" }, pr.p, pr.m, if pr.mask != 0 { "_some_targets_without_connection" } else { "" }), res.executions);
+        r.counters.add(&format!("executions_{}_{}_p{}_m{}{}", pr.pol.name(), if pr.idem { "idem" } else { "nonidem" }, pr.p, pr.m, if pr.mask != 0 { "_some_targets_without_connection" } else if pr.alt { "_alt_failures" } else { "" }), res.executions);
         r.counters.max("max_choice_points", res.max_points as u64);
         for v in res.violations.iter() {
             let (key, text) = v.what.split_once(" :: ").unwrap_or(("exec:unknown", &v.what));
@@ -550,7 +577,7 @@ fn main() {
     if r.violation_count() == 0 && (r.counters.get("max_in_flight_idempotent") < want_in_flight || oc.len() < 8) {
         vcore::machinery_error("vacuity: the idempotent sweeps never had 1+max attempts in flight / too few distinct outcomes");
     }
-    r.set_rule(&format!("E-ASYNC, full enumeration: plan length 0..={max_p} x max speculative count 0..={max_m} x idempotent flag Default retry policy (and DowngradingConsistency for plan 1..={dmax_p} x max 0..={dmax_m}, with WriteTimeout(SIMPLE) as a fifth failure), initial consistency QUORUM; events complete(attempt, success | Overloaded | ReadTimeout(enough replies, no data) | Unavailable(alive=2) | SyntaxError) and timer tick, one event then polling to quiescence. states/transitions = choice points (+terminal states) / alternatives of the schedule tree; traces_validated = schedules re-executed from recorded choices with identical observation trace (1-in-{audit_k} deterministic subset + 2x per violation). distinct_nontrivial = schedules with two attempts in flight at once (idempotent) or a timer tick between two attempts (non-idempotent)."));
+    r.set_rule(&format!("E-ASYNC, full enumeration: plan length 0..={max_p} x max speculative count 0..={max_m} x idempotent flag Default retry policy (and DowngradingConsistency for plan 1..={dmax_p} x max 0..={dmax_m}, with WriteTimeout(SIMPLE) as a fifth failure), initial consistency QUORUM; events complete(attempt, success | Overloaded | ReadTimeout(enough replies, no data) | Unavailable(alive=2) | SyntaxError; a second failure set for Default: UnableToAllocStreamId | BrokenConnection(WriteError) | BrokenConnection(orphans) | SyntaxError, p + max <= 4 quick / 5 thorough) and timer tick, one event then polling to quiescence. states/transitions = choice points (+terminal states) / alternatives of the schedule tree; traces_validated = schedules re-executed from recorded choices with identical observation trace (1-in-{audit_k} deterministic subset + 2x per violation). distinct_nontrivial = schedules with two attempts in flight at once (idempotent) or a timer tick between two attempts (non-idempotent)."));
     r.set_exhaustive(!capped);
     r.assume("which fiber-ending errors are 'definitive' vs curable elsewhere is fixed per symbol in the harness (SyntaxError definitive; Overloaded / ReadTimeout / Unavailable ignorable); a pool error (target without connection) counts as ignorable");
     r.sample(json!({"p":3,"max_speculative":1,"idempotent":true,"events":["Tick","Complete(0,Overloaded)","Complete(1,success)"],"attempts":[[0,"QUORUM"],[1,"QUORUM"],[2,"QUORUM"]],"note":"execution 0 moves to target 2 because execution 1 holds target 1"}));
